@@ -273,10 +273,42 @@ class ParseSim:
                 "env": {}, "policy": {"kind": "rtc", "preempt_steps": []}, "start_at": [0], "fresh_threads": False, "deep": False,
                 "tasks": [[small[0], oj, half, small[1], dict(oj), rest, small[2], dict(oj), small[3]]]}
 
+    def churn_plan(self, i, rng):
+        """Thread churn: one long-lived thread that is nearly always inside a deep parse, next to a task that runs every
+        job on a new OS thread, 70..150 of them, deep and small jobs in turn (per-thread state that is handed from an exiting
+        thread to a later one, tables with a slot per thread number, limits shared by threads that should not share)."""
+        # (lr_memo is left out: a traced deep parse of it takes a million scheduler steps)
+        cands = sorted(n for n in self.grammars if "deep" in self.grammars[n] and not self.grammars[n]["ctx"] and n != "lr_memo")
+        # three times out of four one of the grammars with several rule calls per nesting level (the sum of the depths of two
+        # threads is what a shared budget would see)
+        many_levels = [n for n in cands if n in ("calc", "calc_indirect", "stmt")]
+        g = rng.choice(many_levels) if many_levels and rng.coin(750) else rng.choice(cands)
+        v = rng.choice(self.by_grammar[g])
+        rule = self.grammars[g]["deep"].get("rule", v["exported"][0])
+        dp = self.grammars[g]["deep"]
+        def deep(n):
+            return dp["prefix"] + dp["open"] * n + dp["core"] + dp["close"] * n + dp["suffix"]
+        n0, n1 = rng.range(150, 250), rng.range(150, 250)
+        long_lived = [{"variant": v["name"], "rule": rule, "input": deep(n0), "ctx": [0, 0], "entry": "sim", "align": 0} for _ in range(rng.range(2, 4))]
+        churn = []
+        for k in range(rng.range(70, 150)):
+            # deep jobs for certain on the threads around the 32nd, 64th and 128th of the process (tables with a slot per thread
+            # number wrap at such counts), by chance elsewhere
+            is_deep = rng.coin(600) or any(abs(k + 1 - m) <= 3 for m in (32, 64, 128))
+            inp = deep(n1) if is_deep else self.gen_input(rng, g)
+            churn.append({"variant": v["name"], "rule": rule if is_deep else rng.choice(v["exported"]), "input": inp, "ctx": [0, 0], "entry": "parse", "align": 0})
+        sim_seed = rng.next()
+        return {"id": i, "sim_seed": sim_seed, "entropy": sim_seed >> 1, "reuse_buffer": False, "aged": False, "many_parses": False, "churn": True,
+                "env": {}, "policy": {"kind": "random", "switch_permille": rng.choice([5, 20, 50])}, # the churn starts when the long-lived thread is somewhere inside its first deep parse
+                "start_at": [0, rng.choice([1000, 2500, 5000])], "fresh_threads": [False, True], "deep": True,
+                "tasks": [long_lived, churn]}
+
     def plan_c20(self, i):
         rng = Rng(derive(self.seed, "c20", i))
         if i % 1000 == 5 and i < 4000 and "head" in self.grammars:
             return self.bulk_plan(i, rng)
+        if i % 500 == 6 and i < 8000:
+            return self.churn_plan(i, rng)
         ntasks = rng.weighted([(2, 30), (3, 30), (4, 20), (5, 10), (6, 10)])
         gnames = sorted(self.grammars)
         focus = rng.coin(700)
@@ -392,7 +424,7 @@ class ParseSim:
                     inp = self.gen_input(rng, g)
                 prev = inp
                 job = {"variant": vn, "rule": rng.choice(v["exported"]), "input": inp, "ctx": self.gen_ctx(rng, v), "align": rng.below(8),
-                       "entry": rng.weighted([("sim", 70), ("parse", 20), ("noop", 10)])}
+                       "entry": rng.weighted([("sim", 65), ("parse", 18), ("noop", 9), ("trace", 8)])}
                 est += 150 if job["entry"] == "sim" else 4
                 q.append(job)
             tasks.append(q)
@@ -595,7 +627,7 @@ def stats_init():
     return {"simulations": 0, "steps": 0, "switches": 0, "switches_inside_parse": 0, "cache_hits": 0, "leftrec_rounds": 0,
             "hook_events": 0, "rule_events": 0, "jobs": 0, "jobs_ok": 0, "jobs_err": 0, "overlap_same_variant": 0,
             "overlap_same_input": 0, "same_variant_follows_on_thread": 0, "same_input_again_on_thread": 0,
-            "fresh_thread_sims": 0, "deep_nesting_sims": 0, "aged_process_sims": 0, "many_parses_sims": 0, "buffer_reuse_sims": 0, "volume_probe_sims": 0, "jobs_with_turned_settings": 0, "sims_with_environment_variables": 0, "sims_mixing_grammars": 0, "unbalanced_trace_callbacks": 0, "failing_jobs_on_memoized_variants": 0}
+            "fresh_thread_sims": 0, "deep_nesting_sims": 0, "aged_process_sims": 0, "many_parses_sims": 0, "buffer_reuse_sims": 0, "volume_probe_sims": 0, "thread_churn_sims": 0, "jobs_with_turned_settings": 0, "sims_with_environment_variables": 0, "sims_mixing_grammars": 0, "unbalanced_trace_callbacks": 0, "failing_jobs_on_memoized_variants": 0}
 
 
 def run_check(prop, tier, seed, replay_path=None):
@@ -633,6 +665,8 @@ def run_check(prop, tier, seed, replay_path=None):
                         twin = dict(j)
                         twin["variant"] = ps.by_name[j["variant"]]["grammar"] + "_m0"
                         keys.append(job_key(twin, noop_class(j["entry"])))
+                        if entry_class(j["entry"]) != noop_class(j["entry"]):
+                            keys.append(job_key(twin))  # the twin under the job's own tracer as well
         if prop == "C20":
             for p in plans:
                 for q in p["tasks"]:
@@ -666,6 +700,7 @@ def run_check(prop, tier, seed, replay_path=None):
             stats["many_parses_sims"] += 1 if plan.get("many_parses") else 0
             stats["buffer_reuse_sims"] += 1 if plan.get("reuse_buffer") else 0
             stats["volume_probe_sims"] += 1 if plan.get("bulk") else 0
+            stats["thread_churn_sims"] += 1 if plan.get("churn") else 0
             stats["jobs_with_turned_settings"] += sum(1 for q in plan["tasks"] for j in q if "@" in j.get("entry", ""))
             stats["sims_with_environment_variables"] += 1 if plan.get("env") else 0
             if len({self_g for self_g in (ps.by_name[j["variant"]]["grammar"] for q in plan["tasks"] for j in q)}) > 1:
@@ -741,6 +776,14 @@ def run_check(prop, tier, seed, replay_path=None):
                         oka, okb = ra["res"].startswith("Ok("), rb["res"].startswith("Ok(")
                         if oka != okb or (oka and ra["res"] != rb["res"]):
                             violations.append({"twin": {"job": j, "memoized": ra, "plain": rb, "twin_variant": twin["variant"]}})
+                        if entry_class(j["entry"]) != noop_class(j["entry"]) and job_key(j) not in twin_checked:
+                            # the same comparison with the job's own tracer type in both (a tracer must not change what @memoize does)
+                            twin_checked.add(job_key(j))
+                            ra, rb = ps.iso[job_key(j)], ps.iso[job_key(twin)]
+                            twin_pairs += 1
+                            oka, okb = ra["res"].startswith("Ok("), rb["res"].startswith("Ok(")
+                            if oka != okb or (oka and ra["res"] != rb["res"]):
+                                violations.append({"twin": {"job": j, "memoized": ra, "plain": rb, "twin_variant": twin["variant"], "kind": "memoize-differs-under-tracer"}})
         done += n
 
     # C05: long inputs (offsets beyond 2^16), memoized variants against the non-memoized twin, isolated runs only
@@ -903,11 +946,11 @@ def determinism_selftest(ps, make, n):
 
 def replay(ps, prop, path):
     r = json.load(open(path))
-    if r.get("kind") in ("memoize-subset-differs", "reentrant-parse-differs"):
+    if r.get("kind") in ("memoize-subset-differs", "reentrant-parse-differs", "memoize-differs-under-tracer"):
         job = r["job"]
         twin = dict(job)
         twin["variant"] = r["twin_variant"]
-        cls = "noop" if r["kind"] == "memoize-subset-differs" else None
+        cls = noop_class(job.get("entry", "noop")) if r["kind"] == "memoize-subset-differs" else None
         ps.ensure_oracle([job_key(job, cls), job_key(twin, cls)])
         ra, rb = ps.iso[job_key(job, cls)], ps.iso[job_key(twin, cls)]
         oka, okb = ra["res"].startswith("Ok("), rb["res"].startswith("Ok(")
